@@ -2,7 +2,7 @@
 import ast
 
 from ..model import AnchorError, call_name, const_str, dotted, src
-from ..rules import FuncView, suffix_match, attr_writers, func_qual_of, truth_formula, path_condition, formula_unsat, formula_implies_f, formula_of, loop_continue_condition
+from ..rules import transparent_override, FuncView, suffix_match, attr_writers, func_qual_of, truth_formula, path_condition, formula_unsat, formula_implies_f, formula_of, loop_continue_condition
 from . import _framing
 
 EXPLANATION = (
@@ -94,7 +94,7 @@ def check(ctx):
     for modn, sub, base in (("tcp.serving", "IncomerTls", "Incomer"), ("tcp.clienting", "ClientTls", "Client")):
         c = ctx.cls(modn, sub)
         for m in ("serviceTxes", "serviceReceives", "tx", "serviceReceiveOnce"):
-            ctx.check(m not in c.methods, "T6-inherit", c.node, "%s inherits %s.%s" % (sub, base, m),
+            ctx.check(m not in c.methods or transparent_override(c.methods[m]), "T6-inherit", c.node, "%s inherits %s.%s" % (sub, base, m),
                       "an override of the queue discipline in the TLS class would need its own proof")
     # wire log
     for modn, cn in SENDERS:
@@ -135,6 +135,7 @@ def check(ctx):
                   "the transmit queue is mutated outside tx()/serviceTxes")
     ctx.floor("T4-txes:writers", k, 8)
     wire_log_writes(ctx)
+    queues_unbounded(ctx, "T4-unbounded", ("ioflo.aio.tcp.serving", "ioflo.aio.tcp.clienting", "ioflo.aio.serial.serialing"))
 
 
 def wire_log_writes(ctx):
@@ -151,3 +152,30 @@ def wire_log_writes(ctx):
         ctx.check(ok, "T9-wirelog", f, "WireLog.%s writes the header, then `data` unchanged, then a newline (%s)" % (mn, args),
                   "the wire log is the record of exactly the bytes the socket accepted or delivered: a stripped, decoded or "
                   "re-encoded copy drops or changes bytes (e.g. the CRLF that ends an HTTP head)")
+
+
+def _bounded_deque(x):
+    return isinstance(x, ast.Call) and (dotted(x.func) or "").split(".")[-1] == "deque" and \
+        (len(x.args) > 1 or any(k.arg == "maxlen" and not (isinstance(k.value, ast.Constant) and k.value.value is None) for k in x.keywords))
+
+
+def queues_unbounded(ctx, rule, modules):
+    """a deque with maxlen drops from the far end, silently, when it is full: a transmit queue, receive queue or packet queue
+    built that way loses the oldest (or the re-queued newest) entry under backlog"""
+    ctx.rule(rule, "no deque(.., maxlen) in %s: queued data is never dropped by the container" % ", ".join(modules))
+    probe = ast.parse("a = deque(maxlen=8)\nb = deque([], 4)\nc = deque()\nd = deque(x, maxlen=None)")
+    if sum(1 for x in ast.walk(probe) if _bounded_deque(x)) != 2:
+        raise AnchorError("%s matcher no longer recognises its positive examples" % rule)
+    k = 0
+    for modn in modules:
+        m = ctx.repo.modules.get(modn)
+        if m is None:
+            raise AnchorError("%s not found" % modn)
+        ctx.use(m.tree)
+        for x in ast.walk(m.tree):
+            if isinstance(x, ast.Call) and (dotted(x.func) or "").split(".")[-1] == "deque":
+                k += 1
+                ctx.check(not _bounded_deque(x), rule, x, "%s is unbounded" % src(x)[:50],
+                          "a bounded deque discards entries without any error when it is full: queued bytes / packets vanish "
+                          "(the oldest on append, the newest on appendleft of a re-queued tail)")
+    ctx.floor(rule + ":deques", k, 3)
